@@ -362,13 +362,35 @@ def run(ctx):
         ok = b"Identity" in fx["consts"] or has(fx["calls"], r"Identity")
         ctx.ob(R, "identity-predefined|%s" % fn, ok, "%s treats the predefined name Identity as no encryption" % fn, F.fn(fn).where(),
                what="%s resolves a filter name that is absent from CF to RC4, including the predefined name Identity: with StmF/StrF /Identity data is RC4-encrypted anyway (other readers see garbage; conforming files are mangled on decryption)" % fn)
-    tf = facts_of(F, "<PasswordAlgorithm as TryFrom>::try_from")
-    import inv
+    # /Length: value-set analysis over the parsed key length (domain 0..=512; conditions on V are left open, so the set reaching
+    # the code after the test is the union over all versions).  256 must be able to pass (V 5 dictionaries carry it), nothing
+    # below 40 and no non-multiple of 8 may pass for any version (n = Length / 8 feeds hash[..n] and the RC4 key schedule).
     b = F.fn("<PasswordAlgorithm as TryFrom>::try_from")
-    okl = False
+    import byteset
+    lvar = None
     for c in b.calls:
-        if (c.fn or "").endswith("RangeInclusive::<Idx>::contains") and "length" in b.oname(c.args[1], 3):
-            gs = inv.rendered_guards(b, c.bb)
-            okl = any(re.search(r"version", g) for g, tr in gs)
-    ctx.ob(R, "length-only-for-v2-v3", okl, "the 40..=128 test on Length is limited to the versions that define Length", b.where(),
-           what="PasswordAlgorithm::try_from applies the `multiple of 8 in 40..=128` test to /Length for every V: a V 5 dictionary carrying /Length 256, as other producers write, is rejected with InvalidKeyLength")
+        if c.local and c.cname.endswith("Dictionary::get") and lib._const_bytes_through(b, c.args[1]) == b"Length":
+            lvar = "found"
+    lens = [l for l, n in b.names.items() if b.lty(l) in ("i64", "usize", "u32", "u64") and len(b.defs.get(l, [])) == 1 and b.defs[l][0][2] == "rv"
+            and b.defs[l][0][3]["k"] == "use" and (op_place(b.defs[l][0][3]["o"]) or {"p": []})["p"]
+            and isinstance(op_place(b.defs[l][0][3]["o"])["p"][0], dict) and op_place(b.defs[l][0][3]["o"])["p"][0].get("down") == "Some"
+            and "usize" in b.lty(op_place(b.defs[l][0][3]["o"])["l"]) + b.lty(l)]
+    after = [c for c in b.calls if c.local and c.cname.endswith("Dictionary::get") and lib._const_bytes_through(b, c.args[1]) == b"R"]
+    okl, got = False, None
+    if lvar and after:
+        for L in lens:
+            al = {L}
+            for bi, si, st in b.stmts():
+                if "lhs" in st and not st["lhs"]["p"] and st["rv"]["k"] == "use":
+                    q = op_place(st["rv"]["o"])
+                    if q is not None and not q["p"] and q["l"] in al and len(b.defs.get(st["lhs"]["l"], [])) == 1:
+                        al.add(st["lhs"]["l"])
+            bv = byteset.ByteVar(F, b, lambda o, al=al: (op_place(o) is not None and not op_place(o)["p"] and op_place(o)["l"] in al), domain=range(0, 513))
+            Rs = bv.reach_sets(start=b.defs[L][0][0])      # only paths on which the length is present
+            g = set(Rs.get(after[0].bb, frozenset()))
+            if g and g != set(range(0, 513)):
+                got = g
+                okl = 256 in g and not any(x < 40 for x in g) and not any(x % 8 for x in g) and 128 in g and 40 in g
+    ctx.ob(R, "length-only-for-v2-v3", okl, "key lengths that pass the /Length test (any V): %s" % (byteset.fmt_set(got) if got else "?"), b.where(),
+           what="PasswordAlgorithm::try_from lets the /Length values %s pass: 256 (written by V 5 producers) must pass, and no value below 40 or not a multiple of 8 may (it would reach the RC4/MD5 key handling)"
+                % (byteset.fmt_set(got) if got else "(undetermined)"))
